@@ -169,7 +169,7 @@ func (r *run) impl(srvIdx int) func(ctx context.Context, call *server.Call) erro
 			simrt.YieldAt("impl-acked")
 		}
 		if flags&fNoAlloc == 0 {
-			res, err := call.AllocResults(capnp.ObjectSize{DataSize: 8, PointerCount: 1})
+			res, err := call.AllocResults(capnp.ObjectSize{DataSize: 8, PointerCount: capField(id) + 1})
 			if err != nil {
 				cm.implErr = fmt.Errorf("impl:%d:alloc:%v", id, err)
 				return cm.implErr
@@ -182,7 +182,7 @@ func (r *run) impl(srvIdx int) func(ctx context.Context, call *server.Call) erro
 			if flags&fCap != 0 && next != nil && srvIdx < 2 {
 				c := next.AddRef()
 				cid := res.Message().AddCap(c)
-				res.SetPtr(0, capnp.NewInterface(res.Segment(), cid).ToPtr())
+				res.SetPtr(capField(id), capnp.NewInterface(res.Segment(), cid).ToPtr())
 			}
 		}
 		if flags&fLong != 0 {
@@ -208,6 +208,16 @@ type simReturner struct {
 	err    error
 	result capnp.Struct
 	allocs int
+}
+
+// capField is the pointer field in which the results of call id carry their capability, and on which
+// calls are pipelined: field 0, or for one call in four field 257 (an index that needs both bytes of a
+// transform step; no draw, so that earlier tapes keep their alignment).
+func capField(id int) uint16 {
+	if id%4 == 3 {
+		return 257
+	}
+	return 0
 }
 
 func (sr *simReturner) AllocResults(sz capnp.ObjectSize) (capnp.Struct, error) {
@@ -432,7 +442,7 @@ func (r *run) workerTask(id int, client target, nops int) {
 			}
 			p.invokeSeq = s.Seq()
 			s.Logf("task %d PipelineSend %d on answer of %d flags=%b", id, p.id, base.id, p.flags)
-			p.ans, p.rel = base.ans.PipelineSend(p.ctx, []capnp.PipelineOp{{Field: 0}}, capnp.Send{
+			p.ans, p.rel = base.ans.PipelineSend(p.ctx, []capnp.PipelineOp{{Field: capField(base.id)}}, capnp.Send{
 				Method:    capnp.Method{InterfaceID: ifaceID, MethodID: 0},
 				ArgsSize:  capnp.ObjectSize{DataSize: 16},
 				PlaceArgs: place(p),
